@@ -41,6 +41,8 @@ impl AuthenticationAdapter for MojangAdapter {
         let url = format!(
             "https://sessionserver.mojang.com/session/minecraft/hasJoined?username={username}&serverId={hash}"
         );
+        #[cfg(feature = "verif-hooks")]
+        let url = crate::verif_hooks::rebase(&url.to_string());
         let profile = HTTP_CLIENT
             .get(&url)
             .send()
